@@ -3,7 +3,7 @@
     answers) and the witnesses stay in place (scan files are never written - C03; a torrent's own
     export files only ever receive correct bytes - C01). *)
 From TB Require Import Base Decimal BencodeModel TorrentModel TorrentProofs PathModel FsModel SolverModel FinderModel RunModel
-                       SolverProofs RunProofs FsProofs FaultProofs PreludeProofs TableProofs FinderProofs SearchProofs PresentProofs Generated GeneratedObligations.
+                       SolverProofs RunProofs FsProofs FaultProofs PreludeProofs TableProofs FinderProofs SearchProofs PresentProofs Generated GeneratedObligations SystemModel SystemProofs GlueProofs EstablishProofs CompleteProofs RunExample.
 From Coq Require Import Permutation Sorted.
 Local Open Scope N_scope.
 
@@ -48,9 +48,32 @@ Proof. exact (multi_available_success H content ans pc c combo). Qed.
 Theorem C02_rejection_only_without_candidates pc : rejected pc = false -> Forall has_candidates (w_segs pc).
 Proof. exact (rejected_false pc). Qed.
 
+(** WHOLE RUN.  In a fault-free run of the system - any interleaving of the workers - all of whose
+    states keep the piece available and unobstructed ([avail]: every non-padding positive-length
+    segment has its candidate list, every candidate is readable, the witness candidate [wit s] holds
+    the torrent's bytes of the segment, no regular file lies on the way to an export file and no
+    directory sits where it goes), when the evaluation of the piece has returned it has returned
+    [Success], and every non-padding segment of the piece is in place in the export tree.
+    Premises about the piece: the side conditions the work list guarantees (C01_every_work_piece_good),
+    collision-freeness, the torrent's hash is the hash of the content, padding is zeros. *)
+Theorem C02_available_means_recovered H content es pc wit s s' i o :
+  table_functional content es -> wf_piece content pc -> Forall (fun sg => In (ps_entry sg) es) (w_segs pc) ->
+  cr H content pc -> H (piece_bytes content pc) = w_hash pc -> Forall (pad_zero content) (w_segs pc) ->
+  w_segs pc <> [] -> (forall sg, w_segs pc = [sg] -> ps_len sg <> 0) ->
+  alias_free content es (s_fs s) -> Forall (pgood content es) (s_pool s) ->
+  nth_error (s_pool s) i = Some (solve_prog H pc) -> freachA content pc wit s s' -> nth_error (s_pool s') i = Some (Ret o) ->
+  o = Success /\ forall sg, In sg (w_segs pc) -> e_pad (ps_entry sg) = false -> holds_seg content (s_fs s') sg.
+Proof. exact (fun Hfun Hwf Hall Hcr Hhash Hpadz Hne Hone => available_means_recovered H content es Hfun pc Hwf Hall Hcr Hhash Hpadz Hne Hone wit s s' i o). Qed.
+
+(** Non-vacuity: a fault-free run of the example of C01 all of whose states keep the piece available. *)
+Example C02_available_run_exists :
+  exists s, freachA ex_content ex_pc ex_wit {| s_fs := ex_f0; s_pool := ex_pool |} s /\ nth_error (s_pool s) 0 = Some (Ret Success).
+Proof. exact ex_freachA. Qed.
+
 Print Assumptions C02_candidates_complete.
 Print Assumptions C02_candidates_sound.
 Print Assumptions C02_witnesses_give_combination.
 Print Assumptions C02_search_exhaustive.
 Print Assumptions C02_available_piece_recovered.
 Print Assumptions C02_rejection_only_without_candidates.
+Print Assumptions C02_available_means_recovered.
